@@ -2,6 +2,7 @@
 use vstd::prelude::*;
 use std::collections::HashMap;
 verus! {
+//@include specs/std_extra.rs
 //@include specs/err.rs
 //@include specs/chars.rs
 
